@@ -61,6 +61,9 @@ def decode_value(v):
             args = [decode_value(x) for x in v.get('args', [])]
             kw = {k: decode_value(x) for k, x in v.get('kwargs', {}).items()}
             return cls(*args, **kw)
+        if '__new__' in v:
+            c = load_cls(v['__new__'])
+            return c.__new__(c)
         if '__dict__' in v:
             return {k: decode_value(x) for k, x in v['__dict__'].items()}
         if '__flags__' in v:
